@@ -71,11 +71,13 @@ class Bag:
 
 def plan(tier, seed):
     n = 250 if tier == "quick" else 3000
-    return [{"n": n, "sub": i} for i in range(16)]
+    specs_ = [{"n": n, "sub": i} for i in range(16)]
+    specs_ += [{"kind": "ix", "n": 40 if tier == "quick" else 400, "sub": 900 + i} for i in range(16)]
+    return specs_
 
 
 def floors(tier):
-    return {"distinct_nontrivial": 400, "cls:sel:elem": 500, "cls:sel:parent_elem": 500, "cls:sel:elem_parent": 300, "cls:sel:parent": 300, "cls:primitive_elements": 300, "cls:parent_is_a_query_reached_only_through_the_attribute": 150, "cls:inner_collection_is_a_symbol_instance": 200,
+    return {"cls:feature_interaction_query": 300, "distinct_nontrivial": 400, "cls:sel:elem": 500, "cls:sel:parent_elem": 500, "cls:sel:elem_parent": 300, "cls:sel:parent": 300, "cls:primitive_elements": 300, "cls:parent_is_a_query_reached_only_through_the_attribute": 150, "cls:inner_collection_is_a_symbol_instance": 200,
             "cls:cond:elem_then_parent_or": 150, "cls:cond:parent_then_pred_pair": 100, "cls:cond:elem_then_parent_notand": 150,
             "cls:cond:none": 200, "cls:cond:elem": 200, "cls:cond:parent": 200, "cls:cond:both": 200, "cls:cond:join": 200, "cls:cond:join3": 200, "cls:cond:elem_or": 200, "cls:cond:elem_stacked": 200, "cls:cond:elem_and": 200, "cls:cond:elem_not": 200,
             "cls:scalar": 200, "cls:plain_scalar_value": 60, "cls:reevaluated_after_inner_lists_changed": 150, "cls:has_empty_list": 500, "cls:has_repeated_element": 500, "re:Flatten(@.*)?\\.enter": 2000}
@@ -121,6 +123,11 @@ def gen_case(rng):
 
 
 def cases(spec, ctx):
+    if spec.get("kind") == "ix":
+        from .. import ix
+        for i in range(spec["n"]):
+            yield {"ix": ix.gen_case_for(ctx.rng(spec["sub"], i), ID)}
+        return
     for i in range(spec["n"]):
         case = gen_case(ctx.rng(spec["sub"], i))
         if case["sel"] == "parent" and case["cond"] in ("none", "parent"):
@@ -325,6 +332,9 @@ def run_for_c05(case, caching, times):
 
 
 def check_case(case, ctx):
+    if "ix" in case:
+        from .. import ix
+        return ix.check(case["ix"], ctx)
     es, ps = build_world(case["world"], case.get("prim", False), case.get("bag", False))
     if case.get("prim"):
         ctx.cls("cls:primitive_elements")
